@@ -87,6 +87,7 @@ DETECT = {
     "C16-E": ("C16", ["C16"], ""),
     "C16-F": ("C16", ["C16"], ""),
     "C02-E": ("C02", ["C02"], ""),
+    "C06-E": ("C06", ["C06"], "escaped at first: `if snapshot:` -> `is not None` only matters for a source whose state_dict() is {} (replay-only source); such sources are now generated for the PM resume oracle"),
     "C09-E": ("C09", ["C09"], "escaped at first: needed a worker that ends ITSELF with exit status 0 (invisible to SIGCHLD); kill plans of the virtual scheduler now carry an exit status"),
     "C09-F": ("C09", ["C09"], ""),
     "C11-E": ("C11", ["C11"], ""),
